@@ -26,6 +26,9 @@ import (
 //   cmpf:k,l        ==, map insert/lookup, FastHash equal
 //   pk:hex          decode hex eagerly from Ethernet (default options); push the link, network and
 //                   transport flows that are present
+//   seq:kind,mode,hex,hex,...   DecodeFromBytes of each packet in turn into ONE layer object, the flow
+//                   accessor called after every decode; mode = f (fresh slice per packet) or r (one
+//                   capture buffer overwritten in place) followed by the number of accessor calls per step
 //   lf:kind,hex     decode hex as a packet whose first layer is <kind> (lazy, no recovery) and
 //                   push the flow its link/network/transport layer reports
 type c17 struct{}
@@ -501,6 +504,18 @@ func (c17) Run(c Case) Result {
 			}
 			res.Obs = append(res.Obs, o)
 			c17StackOracle(op, data, fl, fail)
+		case "seq":
+			k := c17KindByName(args[0])
+			mode := args[1]
+			reuse := strings.HasPrefix(mode, "r")
+			if len(args) > 3 {
+				if reuse {
+					tags["reused-layer-reused-buffer"] = true
+				} else {
+					tags["reused-layer-fresh-buffer"] = true
+				}
+			}
+			res.Obs = append(res.Obs, "seq="+strings.Join(c17Seq(op, k, mode, reuse, args[2:], fail), "|"))
 		case "lf":
 			k := c17KindByName(args[0])
 			data := getb(1)
@@ -629,6 +644,95 @@ func c17LayerOracle(op string, k *c17Kind, data []byte, cls string, f gopacket.F
 			fail("C17:layer-addresses", "%s: PPP flow %s", op, c17F(f))
 		}
 	}
+}
+
+func c17FlowOf(d c17Decoder) (f gopacket.Flow) {
+	switch l := d.(type) {
+	case gopacket.LinkLayer:
+		f = l.LinkFlow()
+	case gopacket.NetworkLayer:
+		f = l.NetworkFlow()
+	case gopacket.TransportLayer:
+		f = l.TransportFlow()
+	}
+	return
+}
+
+// c17Seq decodes the packets one after the other into ONE layer object and reports the flow
+// after every decode.  Oracle (per step, independent of the model): when DecodeFromBytes
+// returned nil the flow carries exactly the CURRENT packet's address bytes, and repeated calls
+// of the accessor agree.
+func c17Seq(op string, k *c17Kind, mode string, reuse bool, hexes []string, fail func(string, string, ...interface{})) (steps []string) {
+	d := k.dfb()
+	capture := make([]byte, 4096)
+	for i, h := range hexes {
+		pkt, _ := hex.DecodeString(h)
+		var data []byte
+		if reuse {
+			data = capture[:copy(capture, pkt)]
+		} else {
+			data = append(make([]byte, 0, len(pkt)), pkt...)
+		}
+		calls := 1
+		if len(mode) > 1+i && mode[1+i] >= '1' && mode[1+i] <= '9' {
+			calls = int(mode[1+i] - '0')
+		}
+		var err error
+		var f gopacket.Flow
+		stage := "decode"
+		if c17Recover(func() {
+			err = d.DecodeFromBytes(data, gopacket.NilDecodeFeedback)
+			stage = "flow"
+			f = c17FlowOf(d)
+			for c := 1; c < calls; c++ {
+				if f2 := c17FlowOf(d); f2 != f {
+					fail("C17:layer-accessor-stable", "%s: step %d: call %d of the flow accessor gives %s, first call %s", op, i, c+1, c17F(f2), c17F(f))
+				}
+			}
+		}) {
+			steps = append(steps, "panic")
+			if stage == "flow" {
+				fail("C17:layer-flow-panics", "%s: step %d: the flow accessor panicked", op, i)
+			}
+			continue
+		}
+		steps = append(steps, "ok:"+c17F(f))
+		if err != nil {
+			continue
+		}
+		// the layer decoded: its flow must carry the current header's addresses
+		var ws, wd []byte
+		switch {
+		case k.w > 0:
+			if len(pkt) < k.minHdr {
+				fail("C17:layer-addresses", "%s: step %d: decoded from %d < %d bytes", op, i, len(pkt), k.minHdr)
+				continue
+			}
+			ws, wd = pkt[k.so:k.so+k.w], pkt[k.do:k.do+k.w]
+		case k.name == "sll":
+			al := int(binary.BigEndian.Uint16(pkt[4:6]))
+			if 6+al > len(pkt) {
+				fail("C17:layer-addresses", "%s: step %d: address length %d beyond the data", op, i, al)
+				continue
+			}
+			ws = pkt[6 : 6+al]
+		case k.name == "sll2":
+			al := int(pkt[11])
+			if 12+al > len(pkt) {
+				fail("C17:layer-addresses", "%s: step %d: address length %d beyond the data", op, i, al)
+				continue
+			}
+			ws = pkt[12 : 12+al]
+		}
+		if len(ws) > 16 {
+			ws = ws[:16]
+		}
+		sE, dE := f.Endpoints()
+		if f.EndpointType() != k.etype() || !bytes.Equal(sE.Raw(), ws) || !bytes.Equal(dE.Raw(), wd) {
+			fail("C17:layer-addresses", "%s: step %d (%s buffer): flow %s, current header has src %x dst %x", op, i, map[bool]string{true: "reused", false: "fresh"}[reuse], c17F(f), ws, wd)
+		}
+	}
+	return
 }
 
 // c17Stack: flows of the link, network and transport layer of an eagerly decoded packet
@@ -1191,6 +1295,49 @@ func (c17) Gen(rng *rand.Rand, tier string) []Case {
 		d = c17PkScope(d)
 		r := c17StackReverse(d)
 		add("pk:"+hex.EncodeToString(d), "pk:"+hex.EncodeToString(r), "rev:0", "rev:1", "rev:2", "cmpf:0,3", "cmpf:1,4", "cmpf:2,5", "eps:2", "eps:5", "cmpe:0,3", "cmpe:1,2")
+	}
+	// 8. one layer object reused for 2-4 packets, fresh slices and one reused capture buffer
+	for _, k := range c17Kinds {
+		if k.dfb == nil {
+			continue
+		}
+		kind := k.name
+		for i := 0; i < 50*scale; i++ {
+			n := 2 + rng.Intn(3)
+			var pk [][]byte
+			for j := 0; j < n; j++ {
+				var d []byte
+				switch r := rng.Intn(10); {
+				case r < 5 || j == 0:
+					d = c17Header(rng, kind) // another conversation
+				case r < 7:
+					d = c17Swap(&k, pk[j-1]) // the reply
+				case r < 8:
+					d = append([]byte(nil), pk[rng.Intn(j)]...) // the same conversation again
+				case r < 9: // too short to decode: the object keeps its earlier fields
+					d = c17Header(rng, kind)
+					d = d[:rng.Intn(k.minHdr)]
+				default:
+					d = c17RandBytes(rng, rng.Intn(64))
+				}
+				pk = append(pk, c17Scope(kind, d))
+			}
+			modes := []string{"f", "r"}
+			if i%5 == 0 {
+				modes = []string{[]string{"f", "r"}[rng.Intn(2)]}
+			}
+			calls := ""
+			for j := 0; j < n; j++ {
+				calls += strconv.Itoa(1 + rng.Intn(2))
+			}
+			for _, m := range modes {
+				o := "seq:" + kind + "," + m + calls
+				for _, d := range pk {
+					o += "," + hex.EncodeToString(d)
+				}
+				add(o)
+			}
+		}
 	}
 	// targeted: SLL address length wrap / beyond data, SLL2 beyond data
 	for _, al := range []int{65535, 65530, 65529, 100, 40, 11, 10, 9} {
